@@ -213,7 +213,7 @@ def _mk():
     add("ovl_const", "{m}.map_overlap(uf.ov_sum3, {0}, depth={{0: 1}}, boundary=0.0, dtype={0}.dtype)", "uf.np_ov_sum3({0}, 0.0)", exact=False, cond=NE + " and a0.dtype.kind=='f'", fam="window")
 
     # ---- map_blocks
-    add("mb_double", "{m}.map_blocks(uf.ub_double, {0}, dtype={0}.dtype)", "uf.ub_double({0})", fam="mapblocks")
+    add("mb_double", "{m}.map_blocks(uf.ub_double, {0}, dtype={0}.dtype)", "uf.ub_double({0})", cond="a0.dtype!=bool", fam="mapblocks")
     add("mb_neg", "{0}.map_blocks(uf.ub_neg)", "uf.ub_neg({0})", cond="a0.dtype!=bool", fam="mapblocks")
 
     # ---- linalg-ish / routines (not rewrite-active)
